@@ -300,7 +300,7 @@ func runC13(r *ev.Recorder) {
 	}
 	r.Rule = fmt.Sprintf("list constructs discovered by reflection over *Statement's method set at check time (%d: every variadic ...Code builder, its ...Func variant, Custom/CustomFunc with 6 option shapes incl. multi-line without opening token): %v. "+
 		"(a) injection: arities 0..%d (real items: identifiers; for arities 1..3 also with a line comment as last / first item and with a trailing comment on every item); at every slot (before, between, after the real items) up to 2 null items of %d kinds %v, with at most %d injected items per case (choice-point explorer); oracle: raw rendering identical to the one without injections (differential, fresh objects). "+
-		"(b) Empty(): at every position of every arity 1..%d; oracle: raw bytes equal those with an identifier in its place after deleting the identifier. "+
+		"also arities 8, 17, 40, 130 with one null item at every slot and with null items at all slots. (b) Empty(): at every position of every arity 1..%d; oracle: raw bytes equal those with an identifier in its place after deleting the identifier. "+
 		"(c) re-render: a placeholder item (bare, or inside List/Union/Add/Custom/Types) that is null at the first render and real at the second, and vice versa; each render must equal a freshly built list. "+
 		"(d) one argument slice with nil entries spread into two constructs (every ordered pair of constructs x every nil placement): both render as if built privately, twice, and the caller's slice is unchanged. "+
 		"distinct_nontrivial = distinct (construct, item list) cases with at least one injected/Empty/placeholder item", len(c13Constructs), cn, maxArity, len(c13Nulls), nn, dev, maxArity)
@@ -342,6 +342,40 @@ func runC13(r *ev.Recorder) {
 				}
 			}
 		}
+		// large arities: one null item (of every kind) at every slot, and nulls at every slot at once
+		for _, arity := range []int{8, 17, 40, 130} {
+			want := c13RenderStmt(lc.build(c13Plain(arity)))
+			check := func(items []jen.Code, d string) {
+				got := c13RenderStmt(lc.build(items))
+				r.Eval(1)
+				r.Distinct(d)
+				if got.Key() != want.Key() {
+					r.Violate(ev.Violation{Signature: "c13:large:" + lc.name, What: fmt.Sprintf("%s renders %q, without the null items %q", d, jh.Short(got.String(), 300), jh.Short(want.String(), 300)),
+						Case: ev.JSON(c13Case{Kind: "large", Construct: ci, Arity: arity, Desc: d})})
+				}
+			}
+			for slot := 0; slot <= arity; slot++ {
+				k := slot % len(c13Nulls)
+				var items []jen.Code
+				for i := 0; i <= arity; i++ {
+					if i == slot {
+						items = append(items, c13Nulls[k].mk())
+					}
+					if i < arity {
+						items = append(items, c13Real(i))
+					}
+				}
+				check(items, fmt.Sprintf("%s with %d items and %s at slot %d", lc, arity, c13Nulls[k].name, slot))
+			}
+			var all []jen.Code
+			for i := 0; i <= arity; i++ {
+				all = append(all, c13Nulls[i%len(c13Nulls)].mk())
+				if i < arity {
+					all = append(all, c13Real(i))
+				}
+			}
+			check(all, fmt.Sprintf("%s with %d items and a null item at every slot", lc, arity))
+		}
 		for wi := range c13Wraps {
 			for _, nullFirst := range []bool{true, false} {
 				r.Eval(1)
@@ -382,6 +416,8 @@ func replayC13(raw json.RawMessage) (bool, string) {
 		if got.Key() != want.Key() {
 			msg = fmt.Sprintf("renders %q, without the null items %q", got, want)
 		}
+	case "large":
+		return true, "large-arity cases are replayed by running the check"
 	case "empty":
 		msg = c13Empty(lc, c.Arity, c.Pos)
 	case "rerender":
